@@ -1,6 +1,641 @@
 package main
 
-import "github.com/imroc/req/v3/verifharness/hk"
+// HTTP/2 and HTTP/3 pairs.  The peers are the reference servers (golang.org/x/net/http2.Server
+// over crypto/tls, quic-go http3.Server over a quic-go listener); underneath them every
+// connection / stream is recorded in both directions (plaintext above TLS resp. the QUIC
+// stream payload) and parsed afterwards with the reference framers (x/net http2.Framer + hpack,
+// quicvarint + qpack): the wire capture is therefore independent of both the client under test
+// and the server's own request object.
 
-func h2Pairs(r *hk.Run, rng *hk.Rand, count int) {}
-func h3Pairs(r *hk.Run, rng *hk.Rand, count int) {}
+import (
+	"bytes"
+	"context"
+	"crypto/tls"
+	"fmt"
+	"io"
+	"net"
+	"net/http"
+	"sort"
+	"strconv"
+	"strings"
+	"sync"
+	"time"
+
+	req "github.com/imroc/req/v3"
+	"github.com/imroc/req/v3/internal/testcert"
+	"github.com/imroc/req/v3/verifharness/hk"
+	"github.com/quic-go/qpack"
+	"github.com/quic-go/quic-go"
+	qh3 "github.com/quic-go/quic-go/http3"
+	"github.com/quic-go/quic-go/quicvarint"
+	"golang.org/x/net/http2"
+	"golang.org/x/net/http2/hpack"
+)
+
+// ---------- scripted handler shared by the h2 and h3 origins ----------
+
+type hScript struct {
+	resps []respSpec
+	hits  int
+	gate  func(idx int) // blocks until the client has finished writing request idx (or a timeout)
+}
+
+type hOrigin struct {
+	mu      sync.Mutex
+	scripts map[string]*hScript
+}
+
+func (o *hOrigin) register(id string, resps []respSpec, gate func(int)) {
+	o.mu.Lock()
+	o.scripts[id] = &hScript{resps: resps, gate: gate}
+	o.mu.Unlock()
+}
+
+func (o *hOrigin) hits(id string) int {
+	o.mu.Lock()
+	defer o.mu.Unlock()
+	if s := o.scripts[id]; s != nil {
+		return s.hits
+	}
+	return 0
+}
+
+func (o *hOrigin) ServeHTTP(w http.ResponseWriter, r *http.Request) {
+	id := r.Header.Get("X-Case")
+	o.mu.Lock()
+	sc := o.scripts[id]
+	idx := -1
+	if sc != nil && sc.hits < len(sc.resps) {
+		idx = sc.hits
+		sc.hits++
+	}
+	o.mu.Unlock()
+	io.Copy(io.Discard, r.Body)
+	if idx < 0 {
+		w.WriteHeader(599)
+		return
+	}
+	if sc.gate != nil {
+		sc.gate(idx)
+	}
+	rs := sc.resps[idx]
+	h := w.Header()
+	for _, kv := range rs.Headers {
+		h.Add(kv[0], kv[1])
+	}
+	noBody := r.Method == "HEAD" || rs.Framing == "none"
+	if rs.Framing == "cl" || (noBody && rs.Framing != "none") {
+		h.Set("Content-Length", strconv.Itoa(len(rs.body)))
+	}
+	w.WriteHeader(rs.Status)
+	if noBody {
+		return
+	}
+	if rs.Framing != "cl" {
+		if f, ok := w.(http.Flusher); ok {
+			f.Flush()
+		}
+	}
+	w.Write(rs.body)
+}
+
+// ---------- recorders ----------
+
+type recBuf struct {
+	mu      sync.Mutex
+	in, out []byte
+}
+
+func (r *recBuf) addIn(p []byte)  { r.mu.Lock(); r.in = append(r.in, p...); r.mu.Unlock() }
+func (r *recBuf) addOut(p []byte) { r.mu.Lock(); r.out = append(r.out, p...); r.mu.Unlock() }
+func (r *recBuf) snap() (in, out []byte) {
+	r.mu.Lock()
+	defer r.mu.Unlock()
+	return append([]byte(nil), r.in...), append([]byte(nil), r.out...)
+}
+
+// one exchange as seen on the wire, protocol independent
+type wireEx struct {
+	ReqFields  [][2]string
+	HasBody    bool     // h2: HEADERS without END_STREAM; h3: at least one DATA frame
+	ReqChunks  [][]byte // DATA frame payloads
+	RespFields [][2]string
+	RespData   []byte
+}
+
+// ----- h2 -----
+
+type recNetConn struct {
+	net.Conn
+	rec *recBuf
+}
+
+func (c *recNetConn) Read(p []byte) (int, error) {
+	n, err := c.Conn.Read(p)
+	c.rec.addIn(p[:n])
+	return n, err
+}
+func (c *recNetConn) Write(p []byte) (int, error) {
+	c.rec.addOut(p) // before the write: the client may return before Write does
+	return c.Conn.Write(p)
+}
+
+type h2Origin struct {
+	*hOrigin
+	ln    net.Listener
+	mu2   sync.Mutex
+	conns []*recBuf
+}
+
+func serverCert() (tls.Certificate, error) {
+	return tls.X509KeyPair(testcert.LocalhostCert, testcert.LocalhostKey)
+}
+
+func newH2Origin() (*h2Origin, error) {
+	cert, err := serverCert()
+	if err != nil {
+		return nil, err
+	}
+	ln, err := net.Listen("tcp", "127.0.0.1:0")
+	if err != nil {
+		return nil, err
+	}
+	o := &h2Origin{hOrigin: &hOrigin{scripts: map[string]*hScript{}}, ln: ln}
+	conf := &tls.Config{Certificates: []tls.Certificate{cert}, NextProtos: []string{"h2"}}
+	srv := &http2.Server{}
+	go func() {
+		for {
+			c, err := ln.Accept()
+			if err != nil {
+				return
+			}
+			go func() {
+				tc := tls.Server(c, conf)
+				c.SetDeadline(time.Now().Add(60 * time.Second))
+				if err := tc.Handshake(); err != nil {
+					c.Close()
+					return
+				}
+				rec := &recBuf{}
+				o.mu2.Lock()
+				o.conns = append(o.conns, rec)
+				o.mu2.Unlock()
+				srv.ServeConn(&recNetConn{Conn: tc, rec: rec}, &http2.ServeConnOpts{Handler: o.hOrigin})
+			}()
+		}
+	}()
+	return o, nil
+}
+
+func (o *h2Origin) take() []*recBuf {
+	o.mu2.Lock()
+	defer o.mu2.Unlock()
+	c := o.conns
+	o.conns = nil
+	return c
+}
+
+type h2Stream struct {
+	id uint32
+	wireEx
+}
+
+// parseH2Dir parses one direction of a recorded connection.
+func parseH2Dir(b []byte, fromClient bool, streams map[uint32]*h2Stream, order *[]uint32) {
+	if fromClient {
+		if !bytes.HasPrefix(b, []byte(http2.ClientPreface)) {
+			return
+		}
+		b = b[len(http2.ClientPreface):]
+	}
+	fr := http2.NewFramer(io.Discard, bytes.NewReader(b))
+	fr.ReadMetaHeaders = hpack.NewDecoder(4096, nil)
+	fr.MaxHeaderListSize = 16 << 20
+	get := func(id uint32) *h2Stream {
+		s := streams[id]
+		if s == nil {
+			s = &h2Stream{id: id}
+			streams[id] = s
+			*order = append(*order, id)
+		}
+		return s
+	}
+	for {
+		f, err := fr.ReadFrame()
+		if err != nil {
+			return
+		}
+		switch f := f.(type) {
+		case *http2.MetaHeadersFrame:
+			s := get(f.StreamID)
+			var fs [][2]string
+			for _, hf := range f.Fields {
+				fs = append(fs, [2]string{hf.Name, hf.Value})
+			}
+			if fromClient {
+				if s.ReqFields == nil {
+					s.ReqFields = fs
+					s.HasBody = !f.StreamEnded()
+				}
+			} else if s.RespFields == nil || strings.HasPrefix(statusOf(s.RespFields), "1") {
+				s.RespFields = fs
+			}
+		case *http2.DataFrame:
+			s := get(f.StreamID)
+			d := append([]byte(nil), f.Data()...)
+			if fromClient {
+				s.ReqChunks = append(s.ReqChunks, d)
+			} else {
+				s.RespData = append(s.RespData, d...)
+			}
+		}
+	}
+}
+
+func statusOf(fs [][2]string) string {
+	for _, f := range fs {
+		if f[0] == ":status" {
+			return f[1]
+		}
+	}
+	return ""
+}
+
+func parseH2(recs []*recBuf) []wireEx {
+	var out []wireEx
+	for _, rec := range recs {
+		in, o := rec.snap()
+		streams := map[uint32]*h2Stream{}
+		var order []uint32
+		parseH2Dir(in, true, streams, &order)
+		var dummy []uint32
+		parseH2Dir(o, false, streams, &dummy)
+		for _, id := range order {
+			if id != 0 && streams[id].ReqFields != nil {
+				out = append(out, streams[id].wireEx)
+			}
+		}
+	}
+	return out
+}
+
+// ----- h3 -----
+
+type recQStream struct {
+	quic.Stream
+	rec *recBuf
+}
+
+func (s *recQStream) Read(p []byte) (int, error) {
+	n, err := s.Stream.Read(p)
+	s.rec.addIn(p[:n])
+	return n, err
+}
+func (s *recQStream) Write(p []byte) (int, error) {
+	s.rec.addOut(p)
+	return s.Stream.Write(p)
+}
+
+type recQConn struct {
+	quic.EarlyConnection
+	o *h3Origin
+}
+
+func (c *recQConn) AcceptStream(ctx context.Context) (quic.Stream, error) {
+	s, err := c.EarlyConnection.AcceptStream(ctx)
+	if err != nil {
+		return nil, err
+	}
+	rec := &recBuf{}
+	c.o.mu3.Lock()
+	c.o.streams = append(c.o.streams, rec)
+	c.o.mu3.Unlock()
+	return &recQStream{Stream: s, rec: rec}, nil
+}
+
+type h3Origin struct {
+	*hOrigin
+	pc      net.PacketConn
+	ln      *quic.EarlyListener
+	srv     *qh3.Server
+	mu3     sync.Mutex
+	streams []*recBuf
+}
+
+func newH3Origin() (*h3Origin, error) {
+	cert, err := serverCert()
+	if err != nil {
+		return nil, err
+	}
+	pc, err := net.ListenPacket("udp", "127.0.0.1:0")
+	if err != nil {
+		return nil, err
+	}
+	o := &h3Origin{hOrigin: &hOrigin{scripts: map[string]*hScript{}}, pc: pc}
+	tlsConf := qh3.ConfigureTLSConfig(&tls.Config{Certificates: []tls.Certificate{cert}})
+	ln, err := quic.ListenEarly(pc, tlsConf, &quic.Config{Allow0RTT: true})
+	if err != nil {
+		pc.Close()
+		return nil, err
+	}
+	o.ln = ln
+	o.srv = &qh3.Server{Handler: o.hOrigin}
+	go func() {
+		for {
+			c, err := ln.Accept(context.Background())
+			if err != nil {
+				return
+			}
+			go o.srv.ServeQUICConn(&recQConn{EarlyConnection: c, o: o})
+		}
+	}()
+	return o, nil
+}
+
+func (o *h3Origin) close() {
+	o.ln.Close()
+	o.srv.Close()
+	o.pc.Close()
+}
+
+func (o *h3Origin) take() []*recBuf {
+	o.mu3.Lock()
+	defer o.mu3.Unlock()
+	s := o.streams
+	o.streams = nil
+	return s
+}
+
+// parseH3Dir: frames of one direction of a request stream
+func parseH3Dir(b []byte) (fields [][2]string, chunks [][]byte) {
+	r := bytes.NewReader(b)
+	for {
+		t, err := quicvarint.Read(r)
+		if err != nil {
+			return
+		}
+		l, err := quicvarint.Read(r)
+		if err != nil || l > uint64(r.Len()) {
+			return
+		}
+		p := make([]byte, l)
+		io.ReadFull(r, p)
+		switch t {
+		case 0x0:
+			chunks = append(chunks, p)
+		case 0x1:
+			hfs, err := qpack.NewDecoder(nil).DecodeFull(p)
+			if err != nil {
+				return
+			}
+			var fs [][2]string
+			for _, hf := range hfs {
+				fs = append(fs, [2]string{hf.Name, hf.Value})
+			}
+			if fields == nil || strings.HasPrefix(statusOf(fields), "1") {
+				fields = fs
+			}
+		}
+	}
+}
+
+func parseH3(recs []*recBuf) []wireEx {
+	var out []wireEx
+	for _, rec := range recs {
+		in, o := rec.snap()
+		var w wireEx
+		w.ReqFields, w.ReqChunks = parseH3Dir(in)
+		w.HasBody = len(w.ReqChunks) > 0
+		var data [][]byte
+		w.RespFields, data = parseH3Dir(o)
+		w.RespData = bytes.Join(data, nil)
+		if w.ReqFields != nil {
+			out = append(out, w)
+		}
+	}
+	return out
+}
+
+// ---------- generator restricted to what h2 / h3 can carry ----------
+
+func genExchange23(rng *hk.Rand) exSpec {
+	for {
+		ex := genExchange(rng)
+		ok := !ex.Expect
+		for _, rs := range ex.Resps {
+			if len(rs.Interim) > 0 || rs.EarlyFinal || rs.Truncate > 0 {
+				ok = false
+			}
+		}
+		if !ok {
+			continue
+		}
+		ex.ReadBuf = 0
+		if i := strings.Index(ex.Shape, "+rb"); i >= 0 {
+			ex.Shape = ex.Shape[:i]
+		} else if strings.HasPrefix(ex.Shape, "rb") {
+			ex.Shape = "plain"
+		}
+		// framing: "chunked" / "close" mean "no declared length" here
+		return ex
+	}
+}
+
+// ---------- observation -> parts / Coq ----------
+
+func fieldLines(fs [][2]string) []byte {
+	var b bytes.Buffer
+	for _, f := range fs {
+		b.WriteString(f[0] + ": " + f[1] + "\r\n")
+	}
+	b.WriteString("\r\n")
+	return b.Bytes()
+}
+
+func coqFields(fs [][2]string, pl *pool) string {
+	var o []string
+	for _, f := range fs {
+		o = append(o, "("+cb([]byte(f[0]))+", "+pl.enc([]byte(f[1]))+")")
+	}
+	return hk.CoqList(o)
+}
+
+func h23PartsOf(w wireEx, rs respSpec, method string, finalBody []byte, isFinal bool, finalErr string) partsObs {
+	var p partsObs
+	p.ReqHeader = fieldLines(w.ReqFields)
+	if w.HasBody {
+		p.HasReqBody = true
+		p.ReqBody = bytes.Join(w.ReqChunks, nil)
+		p.ReqBodySep = []byte("\r\n\r\n")
+	}
+	p.RespHeader = fieldLines(w.RespFields)
+	if isFinal {
+		p.RespBody = finalBody
+		p.RespEOF = finalErr == ""
+	} else {
+		if method != "HEAD" {
+			p.RespBody = rs.body
+		}
+		p.RespEOF = true
+	}
+	return p
+}
+
+// ---------- the pairs ----------
+
+type stack struct {
+	name   string // h2 | h3
+	ctor   string // X2 | X3
+	client func() *req.Client
+	url    string
+	reg    func(id string, resps []respSpec, gate func(int))
+	hits   func(id string) int
+	take   func() []wireEx
+}
+
+func pairs23(r *hk.Run, rng *hk.Rand, count int, st stack) {
+	for i := 0; i < count; i++ {
+		ex := genExchange23(rng)
+		cfg := genCfg(rng, r)
+		if ex.Retry && cfg.Request != nil {
+			cfg.Request.Set[slotOut] = true // see h1Pairs
+		}
+		id := fmt.Sprintf("%s-%d", st.name, i)
+		run := func(cfg *dumpCfg) (runOut, []wireEx) {
+			wc := newWroteCounter()
+			var gate func(int)
+			if st.name == "h2" {
+				gate = wc.waitFor
+			}
+			st.reg(id, ex.Resps, gate)
+			st.take()
+			out := runClient(st.client(), st.url+ex.Path, ex, id, cfg, wc)
+			// let the origin finish recording the last response bytes
+			ws := st.take()
+			return out, ws
+		}
+		off, wOff := run(nil)
+		on, wOn := run(&cfg)
+		if debugSlow(off, on) {
+			fmt.Fprintf(debugW, "slow %s %s %s off=%v on=%v %s/%s\n", st.name, ex.Shape, cfg.shape(), off.Elapsed, on.Elapsed, off.Res.Err, on.Res.Err)
+		}
+		r.Count(st.name + ".shape=" + ex.Shape)
+		r.Count(st.name + ".method=" + ex.Method)
+		in := map[string]interface{}{"proto": st.name, "exchange": ex, "dump": cfg}
+		sigBase := st.name + ":" + ex.Shape + ":" + cfg.shape()
+		if on.Hang || off.Hang {
+			failOnce(r, hk.Failure{Sig: "hang:" + sigBase, What: fmt.Sprintf("exchange did not complete within the watchdog limit (dump off hang=%v, dump on hang=%v)", off.Hang, on.Hang), Input: in})
+			continue
+		}
+		if !off.Res.equal(on.Res) {
+			failOnce(r, hk.Failure{Sig: "transparent:result:" + sigBase, What: "caller-visible result differs between dump off and dump on", Input: in, Got: on.Res, Want: off.Res})
+		}
+		wireSame := len(wOff) == len(wOn)
+		for k := 0; wireSame && k < len(wOn); k++ {
+			wireSame = sameWire(wOff[k], wOn[k])
+		}
+		if !wireSame {
+			failOnce(r, hk.Failure{Sig: "transparent:wire:" + sigBase, What: "header fields / DATA payload received by the origin differ between dump off and dump on", Input: in,
+				Got: wireSummary23(wOn), Want: wireSummary23(wOff)})
+		}
+		var xs []partsObs
+		var coqX []string
+		pl := &pool{}
+		for k, w := range wOn {
+			if k >= len(ex.Resps) {
+				break
+			}
+			final := k == len(wOn)-1
+			p := h23PartsOf(w, ex.Resps[k], ex.Method, on.Res.Body, final, on.Res.Err)
+			xs = append(xs, p)
+			for _, c := range w.ReqChunks {
+				pl.add(c)
+			}
+			pl.add(p.RespBody)
+			for _, f := range append(append([][2]string(nil), w.ReqFields...), w.RespFields...) {
+				if len(f[1]) > 200 {
+					pl.add([]byte(f[1]))
+				}
+			}
+		}
+		for k, w := range wOn {
+			if k >= len(ex.Resps) {
+				break
+			}
+			coqX = append(coqX, fmt.Sprintf("%s %s %s %s %s", st.ctor, coqFields(w.ReqFields, pl), coqChunks(w.HasBody, w.ReqChunks, pl), coqFields(w.RespFields, pl), coqReads(xs[k], pl)))
+		}
+		want := expectedContents(cfg, xs)
+		if which, g, w, ok := compareContents(on.Sink, want); !ok {
+			failOnce(r, hk.Failure{Sig: "faithful:" + which + ":" + sigBase, What: "content of a dump writer is not exactly the selected parts routed to it", Input: in, Got: g, Want: w})
+		}
+		nt := cfg.anyOn() && (ex.BodyLen > 0 || ex.Resps[len(ex.Resps)-1].BodyLen > 0 || len(ex.Resps) > 1 || strings.Contains(ex.Shape, "longhdr"))
+		r.Add(hk.Case{Coq: pl.wrap(fmt.Sprintf("ExchCase %s %s %s %s", coqOptOpt(cfg.Client, 0), coqOptOpt(cfg.Request, 1), hk.CoqList(coqX), coqObs(on.Sink, pl))),
+			Desc: map[string]interface{}{"kind": st.name, "exchange": ex, "dump": cfg}},
+			st.name+"|"+keyOf(in), nt)
+	}
+}
+
+func sameWire(a, b wireEx) bool {
+	if len(a.ReqFields) != len(b.ReqFields) || a.HasBody != b.HasBody {
+		return false
+	}
+	// the h2 / h3 request writers enumerate http.Header (a Go map): the order of the regular
+	// fields is unspecified and differs from run to run also without dump; compare as multisets
+	sa, sb := sortedFields(a.ReqFields), sortedFields(b.ReqFields)
+	for i := range sa {
+		if sa[i] != sb[i] {
+			return false
+		}
+	}
+	// DATA frame boundaries are not part of "the bytes sent": compare the payload
+	return bytes.Equal(bytes.Join(a.ReqChunks, nil), bytes.Join(b.ReqChunks, nil))
+}
+
+func sortedFields(fs [][2]string) []string {
+	var o []string
+	for _, f := range fs {
+		o = append(o, f[0]+": "+f[1])
+	}
+	sort.Strings(o)
+	return o
+}
+
+func wireSummary23(ws []wireEx) []string {
+	var o []string
+	for _, w := range ws {
+		o = append(o, fmt.Sprintf("%d fields, body=%v %d bytes in %d DATA frames: %s", len(w.ReqFields), w.HasBody, len(bytes.Join(w.ReqChunks, nil)), len(w.ReqChunks), clip(fieldLines(w.ReqFields))))
+	}
+	return o
+}
+
+func h2Pairs(r *hk.Run, rng *hk.Rand, count int) {
+	o, err := newH2Origin()
+	if err != nil {
+		r.Notes = append(r.Notes, "h2 origin failed: "+err.Error())
+		r.Fail(hk.Failure{Sig: "setup:h2", What: "h2 origin could not be started: " + err.Error()})
+		return
+	}
+	defer o.ln.Close()
+	pairs23(r, rng, count, stack{
+		name: "h2", ctor: "X2", url: "https://" + o.ln.Addr().String(),
+		client: func() *req.Client { return req.C().EnableInsecureSkipVerify().EnableForceHTTP2() },
+		reg:    o.register, hits: o.hits,
+		take: func() []wireEx { return parseH2(o.take()) },
+	})
+}
+
+func h3Pairs(r *hk.Run, rng *hk.Rand, count int) {
+	o, err := newH3Origin()
+	if err != nil {
+		r.Notes = append(r.Notes, "h3 origin failed: "+err.Error())
+		r.Fail(hk.Failure{Sig: "setup:h3", What: "h3 origin could not be started: " + err.Error()})
+		return
+	}
+	defer o.close()
+	pairs23(r, rng, count, stack{
+		name: "h3", ctor: "X3", url: "https://" + o.pc.LocalAddr().String(),
+		client: func() *req.Client { return req.C().EnableInsecureSkipVerify().EnableForceHTTP3() },
+		reg:    o.register, hits: o.hits,
+		take: func() []wireEx { return parseH3(o.take()) },
+	})
+}
